@@ -123,8 +123,18 @@ THsOk ==
 THsErr ==
     /\ ~off /\ Is("hsRet") /\ Ev.err # "" /\ Adv
     /\ Ev.conn \in DOMAIN idOf
-    /\ conns[idOf[Ev.conn]].pat = (IF Ev.pattern = "KK" THEN "KK" ELSE "XX")
-    /\ UNCHANGED <<vars, idOf, rboxes, off>>
+    /\ LET i == idOf[Ev.conn] IN
+       /\ conns[i].pat = (IF Ev.pattern = "KK" THEN "KK" ELSE "XX")
+       \* ... unless the failing client reports that it now holds the
+       \* server's key: its handshake ran to the end and the auth-data
+       \* callback refused the payload (HsClientRejects)
+       /\ IF Ev.side # Srv /\ Ev.paired = 1 /\ remote[Ev.side] = None
+          THEN HsClientRejects(i)
+          ELSE UNCHANGED vars
+       \* a failed handshake leaves the party with exactly the key the
+       \* specification says it holds
+       /\ (remote'[Ev.side] # None) = (Ev.paired = 1)
+    /\ UNCHANGED <<idOf, rboxes, off>>
 
 TClose ==
     /\ ~off /\ Is("closeCall") /\ Adv
